@@ -129,3 +129,92 @@ twin('C09', 'c09-twin-finally-form', LOCKS,
      "                if self._owner == current_activity:\n                    self.__release__()\n                raise",
      "                if self._owner is current_activity:\n                    self.__release__()\n                raise",
      '== -> is')
+
+# ------------------------------------------------------------------------- C10
+mutant('C10', 'c10-pop-before-postpone', STREAMS,
+       "                await postpone()\n                return self._buffer.popleft()",
+       "                item = self._buffer.popleft()\n                await postpone()\n                return item",
+       'W', 'item lost when the receiver is cancelled during the postpone')
+mutant('C10', 'c10-await-after-pop', STREAMS,
+       "            try:\n                return self._buffer.popleft()\n            except IndexError:",
+       "            try:\n                item = self._buffer.popleft()\n                await postpone()\n                return item\n            except IndexError:",
+       'W', 'suspension after the pop')
+mutant('C10', 'c10-close-no-wake', STREAMS,
+       "        if not self._closed:\n            self._closed = True\n            self._notification.__awake_all__()\n        await postpone()\n\n    def __await__(self) -> Generator[Any, None, ST]:\n        return",
+       "        if not self._closed:\n            self._closed = True\n        await postpone()\n\n    def __await__(self) -> Generator[Any, None, ST]:\n        return",
+       'K close', 'waiting receivers never learn about close')
+mutant('C10', 'c10-put-appendleft', STREAMS,
+       "        self._buffer.append(item)", "        self._buffer.appendleft(item)",
+       'F', 'LIFO buffer')
+mutant('C10', 'c10-put-closed-unchecked', STREAMS,
+       "        if self._closed:\n            raise StreamClosed(self)\n        self._buffer.append(item)",
+       "        self._buffer.append(item)",
+       'D put', 'put on a closed queue stores')
+mutant('C10', 'c10-closed-before-buffer', STREAMS,
+       "            if self._buffer:\n                await postpone()\n                return self._buffer.popleft()\n            elif self._closed:\n                raise StreamClosed(self)",
+       "            if self._closed:\n                raise StreamClosed(self)\n            elif self._buffer:\n                await postpone()\n                return self._buffer.popleft()",
+       'D recv', 'buffered items are lost after close')
+mutant('C10', 'c10-no-mutex', STREAMS,
+       "        async with self._read_mutex:\n            if self._buffer:",
+       "        if True:\n            if self._buffer:",
+       'F recv', 'receivers no longer serialised')
+mutant('C10', 'c10-put-no-wake', STREAMS,
+       "        try:\n            self._notification.__awake_next__()\n        except NoSubscribers:\n            pass\n        await postpone()",
+       "        await postpone()",
+       'K put', 'waiting receiver never woken')
+mutant('C10', 'c10-aiter-ends-early', STREAMS,
+       "            except StreamClosed:\n                break\n            else:\n                yield result",
+       "            except StreamClosed:\n                break\n            else:\n                yield result\n                if not self._buffer:\n                    break",
+       'I', 'iteration ends when the buffer runs empty')
+twin('C10', 'c10-twin-wake-before-append', STREAMS,
+     "        self._buffer.append(item)\n        try:\n            self._notification.__awake_next__()\n        except NoSubscribers:\n            pass\n        await postpone()",
+     "        try:\n            self._notification.__awake_next__()\n        except NoSubscribers:\n            pass\n        self._buffer.append(item)\n        await postpone()",
+     'independent statements of one atomic block reordered')
+twin('C10', 'c10-twin-local-item', STREAMS,
+     "                await postpone()\n                return self._buffer.popleft()",
+     "                await postpone()\n                item = self._buffer.popleft()\n                return item",
+     'temporary for the popped item')
+
+# ------------------------------------------------------------------------- C11
+mutant('C11', 'c11-await-no-finally', STREAMS,
+       "        try:\n            yield from self._notification.__await__()\n        finally:\n            del self._consumer_buffers[sentinel]\n        if not buffer",
+       "        yield from self._notification.__await__()\n        del self._consumer_buffers[sentinel]\n        if not buffer",
+       'P', 'cancelled waiter leaves its buffer registered forever')
+mutant('C11', 'c11-put-first-only', STREAMS,
+       "        for buffer in self._consumer_buffers.values():\n            buffer.append(item)\n",
+       "        for buffer in self._consumer_buffers.values():\n            buffer.append(item)\n            break\n",
+       'B put:loop', 'only the first consumer gets the message')
+mutant('C11', 'c11-put-no-wake', STREAMS,
+       "            buffer.append(item)\n        self._notification.__awake_all__()\n        await postpone()",
+       "            buffer.append(item)\n        await postpone()",
+       'B put:always-wakes', 'consumers never woken')
+mutant('C11', 'c11-put-closed-unchecked', STREAMS,
+       "        if self._closed:\n            raise StreamClosed(self)\n        for buffer in",
+       "        for buffer in",
+       'B put', 'put after close still delivers')
+mutant('C11', 'c11-iter-closed-first', STREAMS,
+       "                while buffer:\n                    yield buffer.popleft()\n                    # let others run between consecutive buffered messages\n                    if buffer:\n                        await postpone()\n                if self._closed:\n                    break",
+       "                if self._closed:\n                    break\n                while buffer:\n                    yield buffer.popleft()\n                    # let others run between consecutive buffered messages\n                    if buffer:\n                        await postpone()",
+       'T aiter', 'pending messages dropped at close')
+mutant('C11', 'c11-await-closed-wins', STREAMS,
+       "        if not buffer and self._closed:\n            raise StreamClosed(self)\n        return buffer[0]",
+       "        if self._closed:\n            raise StreamClosed(self)\n        return buffer[0]",
+       'T await', 'a message put just before close is lost')
+mutant('C11', 'c11-await-last-message', STREAMS,
+       "        return buffer[0]", "        return buffer[-1]",
+       'T await:returns-first', 'returns the latest instead of the first message')
+mutant('C11', 'c11-iter-pop-right', STREAMS,
+       "                    yield buffer.popleft()", "                    yield buffer.pop()",
+       'F', 'messages out of order')
+mutant('C11', 'c11-wake-before-append-across-suspension', STREAMS,
+       "        for buffer in self._consumer_buffers.values():\n            buffer.append(item)\n        self._notification.__awake_all__()\n        await postpone()",
+       "        self._notification.__awake_all__()\n        await postpone()\n        for buffer in self._consumer_buffers.values():\n            buffer.append(item)",
+       'B put', 'consumers woken before the message is there')
+mutant('C11', 'c11-iter-del-wrong-key', STREAMS,
+       "                await self._notification\n        finally:\n            del self._consumer_buffers[sentinel]",
+       "                await self._notification\n        finally:\n            self._consumer_buffers.clear()",
+       'P', 'a leaving consumer deregisters everybody')
+twin('C11', 'c11-twin-temp', STREAMS,
+     "                    yield buffer.popleft()\n",
+     "                    message = buffer.popleft()\n                    yield message\n",
+     'temporary for the popped message')
